@@ -128,6 +128,23 @@ pub fn bad(w: &mut RouterWorld, cfg: &Cfg, ci: usize, kind: u8) {
         }
     };
     let _ = cfg;
+    // What this broker does with the packet (markers above) is one of the outcomes the
+    // statements allow for a misbehaving client; the model keeps the others open too.
+    let mut txs = txs;
+    let real = txs != vec![Tx::PingReq];
+    if real {
+        match kind {
+            // closes here; processing the packet, or refusing it and going on, is not ruled out
+            5 | 9 | 10 | 11 | 12 | 17 | 18 | 19 => txs.insert(0, Tx::Doubt),
+            // goes on here; refusing the packet, or closing, is not ruled out
+            7 | 8 | 13 => {
+                txs.insert(0, Tx::Doubt);
+                txs.push(Tx::MayClose);
+            }
+            14 | 15 => txs.push(Tx::MayClose),
+            _ => {}
+        }
+    }
     w.send(ci, txs);
 }
 
